@@ -112,6 +112,17 @@ claim("C08", "other",
       "only the first FROM table.",
       "field-consumption, separator, parenthesis and adjacency rules over the linked template IR + keyword tables", "DESIGN.md section 4, C08")
 
+claim("C09", "other",
+      "The three backends run the same default renderers and can differ only where a backend overrides a trait item. The check "
+      "enumerates every override (42 today) and requires each to be a reviewed one with its class (lexical / emulation / "
+      "dialect-only / non-portable / refuses); dialect-only overrides are shown to write backend-specific text only under a guard "
+      "on their dialect-only construct; and on the portable subset the keyword tables of the three backends - tabulated from the "
+      "code - are equal after the documented function-name and parenthesis substitutions (142 rows).",
+      "NOT decided: that the three engines return identical results. The per-dialect meaning of the shared text is C03/C04/"
+      "C05/C07/C08. The automata-equivalence of whole statement languages planned in DESIGN.md was replaced by this audit + "
+      "table agreement (section 8 fallback).",
+      "override audit + cross-backend agreement of tabulated keyword tables", "DESIGN.md section 4, C09")
+
 claim("C10", "other",
       "MIR dominator analysis of InsertStatement::values/select_from: every write to the statement (in particular every "
       "write that stores rows or a SELECT source) is dominated by the equal edge of the comparison between columns.len() and "
